@@ -253,6 +253,9 @@ func (f *Frame) execCall(c *ssa.CallCommon, result ssa.Value, pos token.Pos) EV 
 			}
 			r := vc.applyUF(key, sig, vals, 0)
 			f.assumeAlive(f.cur, r)
+			if c.IsInvoke() {
+				f.devirtualise(c, key, vals, args, r)
+			}
 			return r
 		}
 		var tup Tuple
@@ -847,4 +850,88 @@ func (vc *VC) sortOfCellKey(k string) Sort {
 		}
 	}
 	return ""
+}
+
+// devirtualise: a call of a pure method through an interface that library types implement. Besides the uninterpreted
+// result (any implementation, e.g. a consumer's), the result is tied to the real body of every library implementation:
+// if the dynamic type is *T then the result is what (*T).M computes in the current state (Go's dynamic dispatch). The
+// bodies are the repository's own code, inlined in spec mode (loop-free accessors); nothing is assumed about them.
+func (f *Frame) devirtualise(c *ssa.CallCommon, key string, vals []Val, args []EV, r Val) {
+	it, ok := c.Value.Type().Underlying().(*types.Interface)
+	if !ok {
+		return
+	}
+	f.devirtualiseIn(it, c.Method.Name(), vals, f.cur, r)
+}
+
+// devirtualiseIn: the same for a call evaluated in state st (code or contract expression)
+func (f *Frame) devirtualiseIn(it *types.Interface, method string, vals []Val, st *State, r Val) {
+	vc := f.vc
+	if vc.specMode || len(vals) == 0 || vals[0].s != SIface || vc.quantDepth > 0 {
+		return
+	}
+	for _, im := range vc.P.implsOf(it, method) {
+		if vc.P.inlining[im.fn] || f.depth >= vc.P.maxInline {
+			continue
+		}
+		recv := Val{sx("i_val", vals[0].t), SInt, im.recvT}
+		evs := []EV{recv}
+		for _, a := range vals[1:] {
+			evs = append(evs, a)
+		}
+		save := vc.specMode
+		vc.specMode = true
+		nerr := len(vc.errs)
+		res, _, _ := f.inlineCall(im.fn, evs, nil, st.clone(), "true")
+		vc.specMode = save
+		if len(vc.errs) > nerr {
+			vc.errs = vc.errs[:nerr] // a body outside the subset simply yields no fact
+			continue
+		}
+		if len(res) < 1 {
+			continue
+		}
+		rv, ok := evAsVal(res[0])
+		if !ok || rv.s != r.s {
+			continue
+		}
+		vc.used["DEVIRTUALISED:"+vc.P.fnKey(im.fn)] = true
+		vc.assume(implies(eq(sx("i_typ", vals[0].t), fmt.Sprint(vc.S.typeID(im.recvT))), eq(r.t, rv.t)))
+	}
+}
+
+type implInfo struct {
+	fn    *ssa.Function
+	recvT types.Type
+}
+
+// implsOf: the library (non-test) pointer types of the repository that implement the interface, with the body of method m
+func (P *Program) implsOf(it *types.Interface, m string) []implInfo {
+	var out []implInfo
+	for _, sp := range P.spkgs {
+		if sp == nil || !P.repoPkgs[sp.Pkg.Path()] {
+			continue
+		}
+		for _, mem := range sp.Members {
+			tm, ok := mem.(*ssa.Type)
+			if !ok {
+				continue
+			}
+			pt := types.NewPointer(tm.Type())
+			if _, isIface := tm.Type().Underlying().(*types.Interface); isIface || !types.Implements(pt, it) {
+				continue
+			}
+			sel := P.prog.MethodSets.MethodSet(pt).Lookup(sp.Pkg, m)
+			if sel == nil {
+				continue
+			}
+			fn := P.prog.MethodValue(sel)
+			if fn == nil || fn.Blocks == nil || !P.isLibrary(fn) {
+				continue
+			}
+			out = append(out, implInfo{fn, pt})
+		}
+	}
+	sort.Slice(out, func(i, j int) bool { return P.fnKey(out[i].fn) < P.fnKey(out[j].fn) })
+	return out
 }
